@@ -1,12 +1,110 @@
 /-
 Driver commands of property C10 (core Lean only).  Command names start with "c10.".
+
+The DEFLATE decoder is supplied by the harness as a finite table (the real compress/flate run on the
+byte strings the reader will frame); CRC-32 is computed here.  A byte string the model asks about
+that is not in the table is answered with `fail 99`, shown as `missing`, which never equals what the
+implementation did — so a framing difference cannot hide behind a shared "error".
+
+  c10.trunc <layer> <streamhex> <table>        verdicts for every cut k = 0 .. len (k = len: intact)
+  c10.subst <layer> <streamhex> <pos> <vals> <table>  verdicts for every value v of vals (v.v.v) written at pos
+
+  layer  = bgzf | bam
+  table  = "-" or entries "tag:start:len:o:used:payloadhex" / "tag:start:len:f:code" joined by ","
+           tag = "*" (any value) or the value the entry belongs to; start/len delimit the byte string
+           (of the cut/substituted stream) the entry answers for
+  verdict (bgzf) = kind/datalen/datahash/haseof     haseof = t | f | e (error, result false)
+  verdict (bam)  = Hkind  (NewReader failed)  |  Rn/kind  (n records, then kind)
 -/
 import Hts.Drv.Util
+import Hts.Model.BgzfBytes
 namespace Hts.Drv.C10
-open Hts.Drv
+open Hts.Drv Hts.Model.BgzfBytes
+
+def crcStep (crc : UInt32) (b : UInt8) : UInt32 :=
+  let c := crc ^^^ b.toUInt32
+  (List.range 8).foldl (fun c _ => if c &&& 1 == 1 then (c >>> 1) ^^^ 0xEDB88320 else c >>> 1) c
+
+/-- CRC-32 (IEEE), bitwise -/
+def crc32 (bs : Bytes) : Nat := ((bs.foldl crcStep 0xFFFFFFFF) ^^^ 0xFFFFFFFF).toNat
+
+structure Entry where
+  tag : Option Nat
+  start : Nat
+  len : Nat
+  res : InflateResult
+
+def toBytes (ns : List Nat) : Bytes := ns.map UInt8.ofNat
+
+def parseEntry (s : String) : Option Entry :=
+  match s.splitOn ":" with
+  | [tag, st, ln, "o", used, pay] => do
+    let t ← if tag == "*" then some none else (parseNat tag).map some
+    some ⟨t, ← parseNat st, ← parseNat ln, .ok (toBytes (← parseHex pay)) (← parseNat used)⟩
+  | [tag, st, ln, "f", code] => do
+    let t ← if tag == "*" then some none else (parseNat tag).map some
+    some ⟨t, ← parseNat st, ← parseNat ln, .fail (← parseNat code)⟩
+  | _ => none
+
+def parseTable (s : String) : Option (List Entry) :=
+  if s == "-" then some [] else (s.splitOn ",").mapM parseEntry
+
+/-- the codec for one concrete stream: entries applicable to value `v`, keyed by content -/
+def codecFor (tbl : List Entry) (v : Option Nat) (stream : Bytes) : Codec :=
+  let es := tbl.filter fun e => e.tag.isNone || e.tag == v
+  let keyed := es.filterMap fun e =>
+    if e.start + e.len ≤ stream.length then some ((stream.drop e.start).take e.len, e.res) else none
+  { inflate := fun bs => match keyed.find? (fun p => p.1 == bs) with
+      | some p => p.2
+      | none => .fail 99
+    crc32 := crc32 }
+
+def showErr : Err → String
+  | .eof => "eof"
+  | .unexpectedEOF => "ueof"
+  | .gzHeader => "gzhdr"
+  | .gzChecksum => "gzsum"
+  | .noBlockSize => "nobs"
+  | .corrupt => "corrupt"
+  | .shortBuffer => "short"
+  | .inflate 1 => "flate"
+  | .inflate 2 => "ueof"
+  | .inflate 99 => "missing"
+  | .inflate n => s!"infl{n}"
+  | .bam n => s!"bam{n}"
+  | .unreachable => "unreachable"
+
+def dataHash (bs : Bytes) : Nat := bs.foldl (fun h b => (h * 131 + b.toNat + 1) % 4294967291) 0
+
+def sem : BamSem := ⟨fun _ => true, fun _ => true⟩
+
+def verdict (layer : String) (c : Codec) (s : Bytes) : String :=
+  if layer == "bam" then
+    match bamReadAll .repaired c sem s with
+    | .headerErr e => "H" ++ showErr e
+    | .records rs e => s!"R{rs.length}/{showErr e}"
+  else
+    let r := readAll .repaired c s
+    let h := hasEOF s
+    s!"{showErr r.2}/{r.1.length}/{dataHash r.1}/{if h.2 then "e" else if h.1 then "t" else "f"}"
 
 def handle (cmd : String) (args : List String) : Option String :=
   match cmd, args with
+  | "c10.trunc", [layer, sh, tb] => do
+    let s := toBytes (← parseHex sh)
+    let tbl ← parseTable tb
+    let c := codecFor tbl none s
+    some (";".intercalate ((List.range (s.length + 1)).map fun k => verdict layer c (s.take k)))
+  | "c10.subst", [layer, sh, pos, vals, tb] => do
+    let s := toBytes (← parseHex sh)
+    let p ← parseNat pos
+    let vs ← (vals.splitOn ".").mapM parseNat
+    let tbl ← parseTable tb
+    if p ≥ s.length then none
+    some (";".intercalate (vs.map fun v =>
+      let m := s.set p (UInt8.ofNat v)
+      verdict layer (codecFor tbl (some v) m) m))
+  | "c10.crc32", [sh] => do some (toString (crc32 (toBytes (← parseHex sh))))
   | _, _ => none
 
 end Hts.Drv.C10
